@@ -744,10 +744,10 @@ func main() {
 			}
 			w := getWorker()
 			w.expand(frontier[i], d)
-			putWorker(w)
 			if d == 1 && i%40 == 0 && r.WantSample() {
 				r.Sample(map[string]any{"state": frontier[i], "notifications_from_it": w.ord})
 			}
+			putWorker(w)
 		})
 		nExpanded += len(frontier)
 		if capped.Load() {
